@@ -20,7 +20,7 @@ theorem refresh_cachesValid (s : TopoState) : CachesValid (refresh s) := by
   intro a ha
   simp only [refresh, List.mem_map] at ha
   obtain ⟨x, _, hx⟩ := ha
-  subst hx; exact Or.inl rfl
+  subst hx; rfl
 
 theorem refresh_strong (s : TopoState) :
     (∀ d ∈ (refresh s).dists, d.valid = true) ∧ (∀ a ∈ (refresh s).attrs, a.valid = true) := by
@@ -47,17 +47,87 @@ theorem refreshDists_id (ds : List DistSlot) (h : ∀ d ∈ ds, d.valid = true) 
 theorem refresh_idem_dists (s : TopoState) : (refresh (refresh s)).dists = (refresh s).dists :=
   refreshDists_id _ (refreshDists_valid s.dists)
 
-theorem loadTail_cachesValid (surv surv2 : Nat → Bool) (s : TopoState) :
-    CachesValid (loadTail surv surv2 false s) := by
-  simp only [loadTail]
-  exact refresh_cachesValid _
+theorem hasFlag_binding (flags : Nat) :
+    hasFlag flags (flagRestrictToCpubinding ||| flagRestrictToMembinding) =
+      (hasFlag flags flagRestrictToCpubinding || hasFlag flags flagRestrictToMembinding) := by
+  simp only [hasFlag, Nat.and_or_distrib_left]
+  cases h1 : (flags &&& flagRestrictToCpubinding != 0) <;> cases h2 : (flags &&& flagRestrictToMembinding != 0) <;>
+    simp_all [Nat.or_eq_zero_iff]
 
-/-- the negative fact: when HWLOC_TOPOLOGY_FLAG_RESTRICT_TO_CPUBINDING/_MEMBINDING restricts at the end of
-    load, every distances structure is left invalid. -/
-theorem loadTail_binding_invalid (surv surv2 : Nat → Bool) (s : TopoState) :
-    ∀ d ∈ (loadTail surv surv2 true s).dists, d.valid = false := by
+theorem guardOk_nk (f : Nat) : guardOk f (flagNoCpukinds, false) = !hasFlag f flagNoCpukinds := by
+  have : (flagNoCpukinds == 0) = false := by decide
+  cases h : hasFlag f flagNoCpukinds <;> simp [guardOk, this, h]
+theorem guardOk_nd (f : Nat) : guardOk f (flagNoDistances, false) = !hasFlag f flagNoDistances := by
+  have : (flagNoDistances == 0) = false := by decide
+  cases h : hasFlag f flagNoDistances <;> simp [guardOk, this, h]
+theorem guardOk_nm (f : Nat) : guardOk f (flagNoMemattrs, false) = !hasFlag f flagNoMemattrs := by
+  have : (flagNoMemattrs == 0) = false := by decide
+  cases h : hasFlag f flagNoMemattrs <;> simp [guardOk, this, h]
+theorem guardOk_zero (f : Nat) : guardOk f (0, false) = true := by simp [guardOk]
+theorem guardOk_c (f : Nat) : guardOk f (flagRestrictToCpubinding, true) = hasFlag f flagRestrictToCpubinding := by
+  have : (flagRestrictToCpubinding == 0) = false := by decide
+  cases h : hasFlag f flagRestrictToCpubinding <;> simp [guardOk, this, h]
+theorem guardOk_m (f : Nat) : guardOk f (flagRestrictToMembinding, true) = hasFlag f flagRestrictToMembinding := by
+  have : (flagRestrictToMembinding == 0) = false := by decide
+  cases h : hasFlag f flagRestrictToMembinding <;> simp [guardOk, this, h]
+theorem guardOk_cm (f : Nat) : guardOk f (flagRestrictToCpubinding ||| flagRestrictToMembinding, true) =
+    (hasFlag f flagRestrictToCpubinding || hasFlag f flagRestrictToMembinding) := by
+  have : (flagRestrictToCpubinding ||| flagRestrictToMembinding == 0) = false := by decide
+  rw [← hasFlag_binding]
+  cases h : hasFlag f (flagRestrictToCpubinding ||| flagRestrictToMembinding) <;> simp [guardOk, this, h]
+
+/-- hwloc_topology_refresh as a step sequence is `refresh`, whatever the flags -/
+theorem runSeq_refreshSeq (flags : Nat) (o : LoadOracle) (s : TopoState) :
+    runSeq Model.refreshSeq flags o s = refresh s := by
+  simp only [runSeq, Model.refreshSeq, List.foldl_cons, List.foldl_nil, guardOk_zero, if_true, effect, refresh]
+
+/-- the first six steps of load leave every cache valid -/
+theorem loadPrefix_cachesValid (flags : Nat) (o : LoadOracle) (s : TopoState) (h : FlaggedOffValid flags s) :
+    CachesValid (runSeq (Model.loadSeq.take 6) flags o s) := by
+  obtain ⟨hd, ha⟩ := h
+  have hav : ∀ (l : List AttrSlot), ∀ a ∈ l.map validateAttr, a.valid = true := by
+    intro l a ham
+    simp only [List.mem_map] at ham
+    obtain ⟨x, _, hx⟩ := ham
+    subst hx; rfl
+  cases hD : hasFlag flags flagNoDistances <;> cases hM : hasFlag flags flagNoMemattrs <;>
+    simp only [runSeq, Model.loadSeq, List.take, List.foldl_cons, List.foldl_nil, guardOk_nk, guardOk_nd, guardOk_nm,
+      guardOk_zero, hD, hM, Bool.not_false, Bool.not_true, if_true, Bool.false_eq_true, if_false, effect,
+      invalidateDistsOnly, needRefreshAttrsOnly, CachesValid, ite_self]
+  · exact ⟨refreshDists_valid _, hav _⟩
+  · exact ⟨refreshDists_valid _, ha hM⟩
+  · exact ⟨hd hD, hav _⟩
+  · exact ⟨hd hD, ha hM⟩
+
+/-- P0 (load part): for EVERY flag word and every outcome of the binding restricts, load ends with valid caches -/
+theorem loadTail_cachesValid (flags : Nat) (o : LoadOracle) (s : TopoState) (h : FlaggedOffValid flags s) :
+    CachesValid (loadTail flags o s) := by
+  have hsplit : loadTail flags o s =
+      runSeq (Model.loadSeq.drop 6) flags o (runSeq (Model.loadSeq.take 6) flags o s) := by
+    simp only [loadTail, runSeq, ← List.foldl_append, List.take_append_drop]
+  rw [hsplit]
+  have hpre := loadPrefix_cachesValid flags o s h
+  generalize runSeq (Model.loadSeq.take 6) flags o s = x at hpre
+  cases hC : hasFlag flags flagRestrictToCpubinding <;> cases hB : hasFlag flags flagRestrictToMembinding
+  · -- no binding flag: nothing runs after setLoaded
+    simpa only [runSeq, Model.loadSeq, List.drop, List.foldl_cons, List.foldl_nil, guardOk_c, guardOk_m, guardOk_cm, hC, hB,
+      Bool.or_self, Bool.false_eq_true, if_false] using hpre
+  all_goals
+    -- a binding flag: the last step is hwloc_topology_refresh, which validates everything
+    have hlast : runSeq (Model.loadSeq.drop 6) flags o x =
+        refresh (runSeq ((Model.loadSeq.drop 6).dropLast) flags o x) := by
+      simp only [runSeq, Model.loadSeq, List.drop, List.dropLast, List.foldl_cons, List.foldl_nil, guardOk_cm, hC, hB,
+        Bool.or_true, Bool.or_false, if_true, effect]
+    rw [hlast]
+    exact refresh_cachesValid _
+
+/-- why the second refresh is needed (finding F51, fixed by 6c24a9e): without the last step, a load with
+    RESTRICT_TO_CPUBINDING whose restrict runs leaves every distances structure invalid. -/
+theorem loadUnfixed_binding_invalid (o : LoadOracle) (ho : o.ranCpu = true) (s : TopoState) :
+    ∀ d ∈ (runSeq Model.loadSeqUnfixed flagRestrictToCpubinding o s).dists, d.valid = false := by
   intro d hd
-  simp only [loadTail, if_true, invalidate, List.mem_map] at hd
+  simp [runSeq, Model.loadSeqUnfixed, Model.loadSeq, guardOk, hasFlag, effect, ho, invalidate, invalidateDistsOnly,
+    flagRestrictToCpubinding, flagRestrictToMembinding, flagNoDistances, flagNoMemattrs, flagNoCpukinds] at hd
   obtain ⟨x, _, hx⟩ := hd
   subst hx; rfl
 
@@ -77,10 +147,8 @@ theorem distsEvents_valid (ds : List DistSlot) (h : ∀ d ∈ ds, d.valid = true
     subst hed; rfl
 
 theorem refreshes_false (q : MemQ) (a : AttrSlot)
-    (h : a.valid = true ∨ (a.conv = true ∧ a.needInit = false)) : refreshes q a = false := by
-  rcases h with h | ⟨h, hn⟩
-  · simp [refreshes, h]
-  · cases q <;> simp [refreshes, reachesTest, h, hn]
+    (h : a.valid = true) : refreshes q a = false := by
+  simp [refreshes, h]
 
 theorem staticEvents_warm (s : TopoState) (hw : Warm s) (c : StaticCache) : staticEvents s c = [rd (.static c)] := by
   simp [staticEvents, hw c]
@@ -103,6 +171,18 @@ theorem distsEvents_benign (ds : List DistSlot) (h : ∀ d ∈ ds, d.valid = tru
   · rw [distEvents_valid d (h d hd)] at hed
     simp only [List.mem_singleton] at hed
     subst hed; exact benign_rd _ (by simp)
+
+theorem attrsRefreshEvents_benign (as : List AttrSlot) (h : ∀ a ∈ as, a.valid = true) :
+    ∀ e ∈ attrsRefreshEvents as, benign e = true := by
+  intro e he
+  simp only [attrsRefreshEvents, List.mem_flatMap, List.mem_range] at he
+  obtain ⟨i, _, hi⟩ := he
+  cases hg : as[i]? with
+  | none => simp [hg] at hi
+  | some a =>
+    have hv := h a (List.mem_of_getElem? hg)
+    simp only [hg, hv, if_true, List.mem_singleton] at hi
+    subst hi; exact benign_rd _ (by simp)
 
 /-- P0 valid_readers_write_free: in a valid state every access of every consulting call is a read of topology
     data, or an access to the registry under the components mutex. -/
@@ -134,6 +214,12 @@ theorem events_valid (s : TopoState) (hv : Valid s) (r : Reader) :
         rcases he with rfl | rfl
         · decide
         · exact benign_rd _ (by simp)
+  | diffBuild =>
+    simp only [events, List.mem_cons, List.mem_append] at he
+    rcases he with rfl | he | he
+    · decide
+    · exact distsEvents_benign s.dists hd e he
+    · exact attrsRefreshEvents_benign s.attrs ha e he
   | exportXml ok =>
     cases ok
     · simp only [events, List.mem_singleton] at he; subst he; decide
